@@ -258,8 +258,32 @@ def run(ctx, ck):
                 for s in (sa, sb):
                     if txt.startswith(s):
                         paths[pconds].add(s)
+            # parameters that the caller sets to "more than one element in the zipped list"
+            # (e.g. explicit = len(self.sources) > 1): the pairing matters exactly then, because
+            # with a single element the reader's defaults fill in the missing partner
+            force = set()
+            for q2, es in prog.edges.items():
+                for e in es:
+                    if e.callee is f and isinstance(e.node, ast.Call):
+                        for kw in e.node.keywords:
+                            if isinstance(kw.value, ast.Compare) and 'len(' in norm(kw.value) and \
+                               isinstance(kw.value.ops[0], (ast.Gt, ast.GtE, ast.NotEq)):
+                                force.add(kw.arg)
+            def infeasible(pc):
+                for t, b in pc:
+                    if isinstance(b, bool) and b is False:
+                        try:
+                            te = ast.parse(t, mode='eval').body
+                        except SyntaxError:
+                            continue
+                        if isinstance(te, ast.BoolOp) and isinstance(te.op, ast.Or) and \
+                           any(isinstance(v, ast.Name) and v.id in force for v in te.values):
+                            return True
+                return False
+            if force:
+                paths = {pc: ss for pc, ss in paths.items() if not infeasible(pc)}
             bad = [pc for pc, ss in paths.items() if len(ss) == 1]
-            why = 'both or neither on all %d paths' % len(paths)
+            why = 'both or neither on all %d paths%s' % (len(paths), (' with %s set' % sorted(force)) if force else '')
             if bad:
                 pc = bad[0]
                 why = ('on the path %s only %s is written; the reader zips the two lists and rejects '
